@@ -23,9 +23,10 @@ tvars == <<t, l, devs>>
 ASSUME \A j \in 1 .. NT : TLCSet(j, 1)
 Ev == Traces[t][l]
 
-TInit == XInit /\ t \in 1 .. NT /\ l = 1 /\ devs = {}
+(* the first event of a trace carries the constructor argument *)
+TInit == XInit /\ t \in 1 .. NT /\ l = 2 /\ devs = {} /\ dto = Traces[t][1].dto
 
-Keep == UNCHANGED <<pending, created, dl, nm, queued, ran, dropped, flusher, qsince>>
+Keep == UNCHANGED <<pending, created, dl, nm, queued, ran, dropped, flusher, qsince, dto, defname>>
 DevRet(th, d) == /\ AllowDev /\ devs' = devs \cup {d}
                  /\ call' = [call EXCEPT ![th] = Idle] /\ Keep
 
@@ -58,7 +59,7 @@ Consume ==
       \/ /\ Ev.ev = "act" /\ Act(Ev.th, Ev.a, Ev.raises, Ev.vt) /\ UNCHANGED devs
       \/ /\ Ev.ev = "stuck" /\ StuckOK(Ev.th) /\ call' = [call EXCEPT ![Ev.th] = Idle] /\ Keep /\ UNCHANGED devs
       \/ /\ Ev.ev = "end" /\ \A th \in Threads : call[th].st = "idle"
-         /\ UNCHANGED <<pending, created, dl, nm, queued, ran, dropped, flusher, qsince, call, devs>>
+         /\ UNCHANGED <<pending, created, dl, nm, queued, ran, dropped, flusher, qsince, call, devs, dto, defname>>
 
 Silent ==
    /\ l <= Len(Traces[t]) /\ Ev.ev \in {"ret", "act", "stuck", "end"}
